@@ -287,7 +287,15 @@ T8 = {
 for _k, _f in T8.items():
     PROPS[_k]["level_note"] = PROPS[_k].get("level_note", "") + " REGENERATED DRIVERS (tools/gotr pass T8): " + _f + " are translated statement by statement from /repo on every run into value-level Lean definitions (Gen/Drivers.lean) and PROVED equal to the hand-written model for all inputs (theorems *_regenerated in this property's file), so the model is tied to these functions by a theorem and not only by the differential run; T8's semantics is value-level and does not model index/slice panics (DESIGN.md section 11)."
     PROPS[_k]["technique"] = PROPS[_k]["technique"] + " + regenerated value-level drivers (T8) proved equal to the model"
-    PROPS[_k]["trusted_base"] = list(PROPS[_k]["trusted_base"]) + ["tools/gotr T8 translation of the listed functions (regenerated every run; each definition proved equal to a model that is executed against the real code)"]
+    _tb = []
+    for _t in PROPS[_k]["trusted_base"]:
+        # the generic statements about hand-written models are refined for the functions T8 regenerates
+        if _t.startswith("hand-written Lean models are tied to the Go code by the correspondence run"):
+            _t = "hand-written Lean models: for the functions regenerated by tools/gotr T7/T8 (" + _f + ") the tie is a Lean theorem (regenerated definition = model, all inputs); for the remaining model parts and for the value-level primitives they are built from it is the correspondence run (differential, generator-bounded)"
+        elif "mirrors signature.go (hand-written control flow" in _t or _t.startswith("hand-written model mirrors the Go control flow"):
+            _t = _t + " - and is proved equal to the regenerated translation of that control flow (T8)"
+        _tb.append(_t)
+    PROPS[_k]["trusted_base"] = _tb + ["tools/gotr T8 translation of the listed functions (regenerated every run; each definition proved equal to a model that is executed against the real code); T8's vocabulary of leaves (which Go method is which value-level primitive)"]
 
 # kernel layers: which limb-kernel theorem files (C05 = field.go kernels, C06 = modnscalar.go kernels) each property's
 # value-level model computes through; their lake targets are built as part of the property's check
